@@ -159,6 +159,25 @@ class Select(MarkerRelation):
         """
         return bool(self.slice.start) or self.slice.stop is not None
 
+    @property
+    def has_unsliced_sort(self) -> bool:
+        """Whether this relation's rows are ordered by a `Sort` that is not
+        followed by a `Slice` (`bool`).
+
+        This looks through `Select` markers that apply no operations of their
+        own (`target` is `skip_to`), since those do not change the rows or
+        their order.
+        """
+        select = self
+        while True:
+            if select.has_slice:
+                return False
+            if select.has_sort:
+                return True
+            if select.target is not select.skip_to or not isinstance(select.skip_to, Select):
+                return False
+            select = select.skip_to
+
     def reapply(self, target: Relation, payload: Any | None = None) -> Select:
         # Docstring inherited.
         if payload is not None:
